@@ -30,6 +30,27 @@ def shared_weapon_witness():
                           ["upsert_units", "UNIx", [unit(a, 55)]]]}
 
 
+def duplicated_section_cases():
+    """a unit-settings section that occurs twice (legal; the game reads the last copy), then the ordinary upsert flow:
+    the authored values must be in every copy (and in particular in the last)"""
+    import random
+    out = []
+    for seed, sec in ((3, "UNIx"), (4, "UNIS")):
+        base = SC.MapGen(random.Random(seed), "editor", nloc=255, all_sections=True, ntrig=1).build()
+        ch = SC.chunks_of(base)
+        dup = [c for c in ch if c[0] == sec.encode()]
+        if not dup:
+            continue
+        base2 = b"".join(n + len(p).to_bytes(4, "little") + p for n, p in ch + [(b"XTRA", b"x"), dup[0]])
+        uw = R._unit_weapons()
+        nw = 100 if sec == "UNIS" else 130
+        unit = {"id": 0, "hp": 256 * 77, "sh": 5, "ar": 6, "bt": 7, "mi": 8, "ga": 9, "name": "authored unit name",
+                "weapons": [[w, 41, 42] for w in uw[0] if w < nw], "default": False}
+        out.append((f"duplicated-{sec}", base2, {"pool": {"locs": [], "cuwps": [], "switches": []},
+                                                 "ops": [["upsert_units", sec, [unit]]]}))
+    return out
+
+
 def run(ck: vlib.Check):
     n = 80 if ck.tier == "quick" else 3000
     ck.rule = ("authored scenarios on the scx fixture and synthetic bases: triggers using every supported condition / "
@@ -48,6 +69,7 @@ def run(ck: vlib.Check):
         cases.append((f"{label}#{i}", base, A.gen_scenario(rng, base)))
     known, _ = vlib.load_known_findings(PROP)
     known_keys = {f["key"]: f["text"] for f in known}
+    cases = duplicated_section_cases() + cases
     impl = []
     types_seen = {"actions": set(), "conditions": set()}
     outcomes = {"ok": 0, "raises": 0}
